@@ -146,12 +146,6 @@ func (v *Vue) Render(w io.Writer, filename string, data any) error {
 		Processors: v.nodeProcessors,
 	})
 
-	// Assign unique IDs to all v-once elements for tracking across deep clones
-	verifPoint(vpVOnceAssign, len(dom), 0)
-	for _, node := range dom {
-		assignSeenAttrs(&vueCtx, node)
-	}
-
 	// Use renderNodesWithContext with pre-configured context
 	return v.renderNodesWithContext(vueCtx, w, dom)
 }
@@ -187,6 +181,14 @@ func (v *Vue) loadCachedWithFrontMatter(filename string) (map[string]any, []*htm
 	dom, err := parser.ParseTemplateBytes(templateBytes)
 	if err != nil {
 		return nil, nil, err
+	}
+
+	// Assign unique IDs to all v-once elements once, before the DOM is shared
+	// with other goroutines through the cache (renders only read it from then on).
+	verifPoint(vpVOnceAssign, len(dom), 0)
+	idCtx := VueContext{}
+	for _, node := range dom {
+		assignSeenAttrs(&idCtx, node)
 	}
 
 	verifPoint(vpCacheStore, 0, 0)
